@@ -636,7 +636,7 @@ class Discharger(object):
         q0 = self.stats['queries']
         kind = obl.kind
         if kind == 'reach':
-            r, m = self.check(list(obl.pc))
+            r, m = self.check(list(obl.pc), timeout=max(self.timeout, 90000))
             v = 'reach-ok' if r == z3.sat else ('reach-fail' if r == z3.unsat else 'unknown')
             return Result(obl, v, '', None, time.time() - t0, self.stats['queries'] - q0)
         if kind == 'close':
